@@ -487,62 +487,66 @@ def tfrec_tables(ctx: Context):
         return None
 
     writer: dict[str, tuple[str, ast.AST]] = {}
-    from sa.dispatch import general_dispatches
-
-    def table_members(e: ast.AST) -> set[str] | None:
-        if isinstance(e, ast.Name) and e.id in mod.globals:
-            g = mod.globals[e.id]
-            if isinstance(g, ast.Dict):
-                return {k.value for k in g.keys if isinstance(k, ast.Constant)}
-            if isinstance(g, (ast.List, ast.Tuple, ast.Set)):
-                return {x.value for x in g.elts if isinstance(x, ast.Constant)}
-            if isinstance(g, ast.Call) and dotted(g.func) in (
-                    "frozenset", "set", "tuple", "list") and len(
-                        g.args) == 1 and isinstance(
-                            g.args[0], (ast.List, ast.Tuple, ast.Set)):
-                return {x.value for x in g.args[0].elts
-                        if isinstance(x, ast.Constant)}
-        return None
-
-    chains = [d for d in general_dispatches(to.body_nodes())
-              if norm.canon(to, d.subject).endswith("attribute.dtype") and any(
-                  isinstance(c, ast.Call) and isinstance(c.func, ast.Name) and
-                  c.func.id.endswith("_feature") for _t, body in d.arms
-                  for s in body for c in ast.walk(s))]
-    if len(chains) != 1:
-        raise AnalysisError("C01.tfrec: writer dispatch on attribute.dtype "
-                            f"found {len(chains)} times")
-    disp = chains[0]
-    for tests, body in disp.arms:
-        ds: set[str] = set()
-        for kind_, v in tests:
-            if kind_ == "lit":
-                ds.add(v)
-            else:
-                m = table_members(v)
-                if m is None:
-                    raise AnalysisError(
-                        f"{to.loc(v)}: writer dispatch test not understood: "
-                        f"{short(v)}")
-                ds |= m
-        kind = None
-        for c in [c for s in body for c in ast.walk(s)
-                  if isinstance(c, ast.Call)]:
-            if isinstance(c.func, ast.Name) and c.func.id.endswith("_feature"):
-                kind = c.func.id
-        ser = any(isinstance(c, ast.Call) and ast.unparse(c.func).endswith(
-            "serialize_tensor") for s in body for c in ast.walk(s))
-        if kind is None:
-            raise AnalysisError(f"{to.loc(body[0])}: writer arm without "
-                                "feature")
-        arm_node = body[0]
+    # the writer table is *evaluated*: for every dtype name of a frozen
+    # universe (plus every name the module mentions) the function is
+    # specialised on attribute.dtype = <name> and the feature constructor
+    # that remains reachable is read off - whatever form the dispatch has
+    # (if/elif, match, table membership, NumPy type-hierarchy tests)
+    from sa import dtypeval
+    universe = set(dtypeval.DTYPES)
+    for n in ast.walk(mod.tree):
+        if isinstance(n, ast.Constant) and isinstance(n.value, str) and \
+                n.value in dtypeval.DTYPES:
+            universe.add(n.value)
+    subject = "attribute.dtype"
+    default_raises = False
+    undecided: list[str] = []
+    rejected: list[bool] = []
+    for d in sorted(universe):
+        ev = dtypeval.DtypeEval(subject, d, mod.globals)
+        cfg_d = CFG(to, env={subject: d}, oracle=ev.oracle)
+        live = cfg_d.reachable([cfg_d.entry],
+                               follow=lambda a, b, lab: lab != "exc")
+        # a test on the dtype that could not be decided keeps both branches
+        for n in cfg_d.nodes:
+            if n in live and n.kind == "test" and n.ast is not None and \
+                    not isinstance(n.stmt, ast.Match):
+                for atom in ast.walk(n.ast):
+                    if isinstance(atom, (ast.Compare, ast.Call)) and \
+                            ev.mentions(atom) and not any(
+                                isinstance(x, (ast.Compare, ast.Call)) and
+                                x is not atom and ev.mentions(x)
+                                for x in ast.walk(atom)) and \
+                            ev.ev(atom) is dtypeval.UNKNOWN:
+                        undecided.append(f"{to.loc(atom)}: "
+                                         f"{short(atom, 60)} for {d!r}")
+        feats = [n for n in cfg_d.calls() if n in live and isinstance(
+            n.ast.func, ast.Name) and n.ast.func.id.endswith("_feature")]
+        kinds = {n.ast.func.id for n in feats}
+        if not feats:
+            # a dtype without a writer arm must be refused
+            rejected.append(any(
+                n.kind == "stmt" and isinstance(n.ast, ast.Raise) and
+                n in live and ev.mentions(n.ast) for n in cfg_d.nodes) or
+                cfg_d.exit not in live)
+            continue
+        if len(kinds) != 1:
+            raise AnalysisError(f"C01.tfrec: dtype {d!r} reaches several "
+                                f"feature kinds {sorted(kinds)}")
+        ser = any(n in live and ast.unparse(n.ast.func).endswith(
+            "serialize_tensor") for n in cfg_d.calls())
+        arm_node = feats[0].ast
         while arm_node is not None and not isinstance(
                 arm_node, (ast.If, ast.match_case)):
             arm_node = parent(arm_node)
-        for d in ds:
-            writer.setdefault(d, (kind + ("+serialize_tensor" if ser else ""),
-                                  arm_node if arm_node is not None else body[0]))
-    default_raises = disp.default is not None and raises_in(disp.default)
+        writer[d] = (kinds.pop() + ("+serialize_tensor" if ser else ""),
+                     arm_node if arm_node is not None else feats[0].stmt)
+    default_raises = bool(rejected) and all(rejected)
+    if undecided:
+        raise AnalysisError("C01.tfrec: writer dispatch test not understood: "
+                            + undecided[0])
+    if not writer:
+        raise AnalysisError("C01.tfrec: no dtype reaches a feature constructor")
     reader: dict[str, str] = {}
     rd = None
     for n in frm.body_nodes():
